@@ -36,4 +36,5 @@ class EqValue(GenericValue):
         return self._file._value_to_code(self._new_value)
 
     def _get_changes(self) -> Iterator[Change]:
-        return iter(self._changes)
+        # a snapshot which was only compared during the alignment of its parent has no changes
+        return iter(getattr(self, "_changes", []))
